@@ -772,6 +772,11 @@ func (c *Context) Ln(d, x *Decimal) (Condition, error) {
 
 	nc := c.WithPrecision(p)
 	nc.Rounding = RoundHalfEven
+	// Intermediate values (the argument scaled into [0.1, 1), the shrinking
+	// corrections of the iteration) must not be subject to the caller's exponent
+	// range; the final result is rounded to it below.
+	nc.MaxExponent = MaxExponent
+	nc.MinExponent = MinExponent
 	ed := MakeErrDecimal(nc)
 
 	var tmp1, tmp2, tmp3, tmp4, z, resAdjust Decimal
